@@ -4,6 +4,10 @@
 #include "babylon/serialization/string.h"
 namespace babylon_vf {
 enum class E64 : uint64_t { A = 1 };
+enum class E32 : int32_t { N = -1, P = 1 };
+size_t force3(E32 e, ::google::protobuf::io::CodedOutputStream& os, ::google::protobuf::io::CodedInputStream& is) {
+  using T = ::babylon::SerializeTraits<E32>; T::serialize(e, os); T::deserialize(is, e); return T::calculate_serialized_size(e);
+}
 using ET = ::babylon::SerializeTraits<E64>;
 using ST = ::babylon::SerializeTraits<::std::string>;
 size_t force(uint64_t v) { return ::babylon::SerializationHelper::varint_size(v); }
